@@ -382,7 +382,7 @@ async def _scenario(loop, case, path):
                 f"ua={t.upload_request_attempts} st={_time_code(t.start_time)} ct={_time_code(t.complete_time)} "
                 f"lp={int(t.local_path is not None)} fx={int(os.path.exists(path))} fs={int(t.filesize is not None)} "
                 f"b={t.bytes_transfered} tl={int(live)}")
-            add('obs', who=None, step=si, cur=t.state.VALUE.name, gated=len(gate.waiting))
+            add('obs', who=None, step=si, cur=t.state.VALUE.name, gated=sum(1 for f in gate.waiting if not f.done()))
     finally:
         rec['on'] = False
         st_mod.asyncos = saved_asyncos
@@ -419,16 +419,40 @@ def _eval_case(case):
 # --------------------------------------------------------------------------------------------
 
 def _monitor(case: dict, res: dict) -> list[Violation]:
-    """Exactly the two sentences of the property: (1) every (old, new) a listener is given is a documented edge;
-    (2) a call that returned False / raised InvalidStateTransition wrote no field, cancelled no live task, removed no
-    file, notified nobody; a call that is not allowed (by the documented graph, in the state the transfer is in) and
-    changed nothing must not report success. (Plus: a call must end in True/False/InvalidStateTransition, not in
-    another exception.)
+    """Exactly the two sentences of the property.
+    (1) What listeners observe — EVERY registered listener (the manager's own and each application listener), each on
+    its own record of the `(old, new)` pairs it was given: every pair is a documented edge (`C03-undocumented-edge`);
+    every pair starts in the state the previous one ended in, the first one in the state the transfer was in when the
+    listener was registered — otherwise the listener has observed an unannounced jump (`C03-listener-sequence-broken`);
+    and the listeners are told the same story: at any time one listener's record is a prefix of the other's, and when
+    nothing is in flight (every issued call has returned, no listener is still running) the records are equal
+    (`C03-listeners-told-differently`). These are `C03_concurrent`, `C03_each_listener_walk` and
+    `C03_listeners_told_the_transitions` read on the real trace.
+    (2) A call that returned False / raised InvalidStateTransition wrote no field, cancelled no live task, removed no
+    file, notified nobody (`C03-refused-with-effect`); a call that is not allowed (by the documented graph, in the state
+    the transfer is in) and changed nothing must not report success: a state method must return False
+    (`C03-not-refused`), `TransferManager.abort/queue/pause` must raise InvalidStateTransition
+    (`C03-manager-refusal-not-raised`). (Plus: a call must end in True/False/InvalidStateTransition, not in another
+    exception: `C03-impl-error`.)
     Deliberately NOT flagged here: an allowed request that is refused, a method that moves along a documented edge to
-    a state it is not named after — those break `C03_table_complete` / `C03_table_sound` or the correspondence."""
+    a state it is not named after — those break `C03_table_complete` / `C03_table_sound` or the correspondence; a
+    state change no listener is told about at all (the property speaks of what listeners observe)."""
     vs = []
     d = case['dir']
     log = res.get('log', [])
+    n_listeners = 1 + len(_listeners(case))
+    told = {li: [] for li in range(n_listeners)}     # listener number -> the pairs it was given, in order
+    once = set()                                     # the per-listener clauses report their first failure only
+    in_flight = running = 0                          # calls issued and not returned / listener invocations not ended
+    is_mgr = {}
+
+    def lname(li):
+        return "listener 0 (the manager's own)" if li == 0 else f'listener {li} (application)'
+
+    def flag(sig, what, **kw):
+        if sig not in once:
+            once.add(sig)
+            vs.append(Violation(sig, what, case, **kw))
     meth_of = {}
     for step in case['steps']:
         for a in step:
@@ -438,12 +462,46 @@ def _monitor(case: dict, res: dict) -> list[Violation]:
         vs.append(Violation('C03-impl-error', 'running the schedule raised: ' + res['crash'], case))
         return vs
     for i, e in enumerate(log):
+        if e['kind'] == 'sched':
+            in_flight += 1
+            is_mgr[e['who']] = e.get('mgr', False)
+        elif e['kind'] == 'ret':
+            in_flight -= 1
+        elif e['kind'] == 'event-end':
+            running -= 1
         if e['kind'] == 'event':
+            running += 1
+            li = e.get('li', 0)
+            rec_li = told.setdefault(li, [])
             if (e['old'], e['new']) not in SPEC_EDGES[d]:
                 vs.append(Violation('C03-undocumented-edge',
-                                    f"{d}: listener observed {e['old']} -> {e['new']}, not an edge of the documented graph",
+                                    f"{d}: {lname(li)} was told {e['old']} -> {e['new']}, not an edge of the documented graph",
                                     case, observed=f"{e['old']}>{e['new']} (made by call {e['who']}: {meth_of.get(e['who'])})",
                                     required='an edge of Spec/TransferGraph.lean'))
+            before = rec_li[-1][1] if rec_li else case['state']
+            if e['old'] != before:
+                flag('C03-listener-sequence-broken',
+                     f"{d}: {lname(li)} was told {e['old']} -> {e['new']} although the last state it knew of was {before}"
+                     + (f" (it had been told {rec_li[-1][0]} -> {rec_li[-1][1]})" if rec_li else ' (the state at registration)')
+                     + f": it observed an unannounced change {before} -> {e['old']}",
+                     observed=[f'{a}>{b}' for a, b in rec_li] + [f"{e['old']}>{e['new']}"],
+                     required='each pair starts in the state the previous pair ended in')
+            rec_li.append((e['old'], e['new']))
+            for lj, other in told.items():
+                k = min(len(rec_li), len(other))
+                if lj != li and rec_li[:k] != other[:k]:
+                    flag('C03-listeners-told-differently',
+                         f"{d}: {lname(li)} and {lname(lj)} were told different state changes of the same transfer",
+                         observed={f'listener {li}': [f'{a}>{b}' for a, b in rec_li],
+                                   f'listener {lj}': [f'{a}>{b}' for a, b in other]},
+                         required='all listeners are told the same sequence of state changes')
+        if e['kind'] == 'obs' and in_flight == 0 and running == 0 and not e.get('gated'):
+            recs = [told.get(li, []) for li in range(n_listeners)]
+            if any(r != recs[0] for r in recs):
+                flag('C03-listeners-told-differently',
+                     f"{d}: nothing is in flight any more, yet the listeners have not been told the same state changes",
+                     observed={f'listener {li}': [f'{a}>{b}' for a, b in r] for li, r in enumerate(recs)},
+                     required='all listeners are told the same sequence of state changes')
         if e['kind'] == 'ret' and e['code'] in ('F', 'R'):
             cid = e['who']
             mine = [x for x in log if x['who'] == cid and x is not e and
@@ -463,12 +521,23 @@ def _monitor(case: dict, res: dict) -> list[Violation]:
                                     f"{d}: the local file changed while call {cid} ({meth_of.get(cid)}) was refused", case))
         if e['kind'] == 'ret' and e['code'] == 'T':
             cid, m = e['who'], meth_of.get(e['who'])
-            moved = any(x['who'] == cid and x['kind'] == 'event' for x in log)
+            moved = any(x['who'] == cid and (x['kind'] == 'event' or (x['kind'] == 'write' and x['field'] == 'state'))
+                        for x in log)
             if not moved and m in METHODS and (e['cur'], spec_target(d, m)) not in SPEC_EDGES[d]:
-                vs.append(Violation('C03-not-refused',
-                                    f"{d}: {m}() (call {cid}) is not allowed in state {e['cur']}, changed nothing, yet "
-                                    f"reported success instead of False / InvalidStateTransition", case,
-                                    observed='returned normally', required='refused'))
+                if is_mgr.get(cid):
+                    vs.append(Violation('C03-manager-refusal-not-raised',
+                                        f"{d}: TransferManager.{m}(transfer) (call {cid}) is not allowed in state "
+                                        f"{e['cur']} — the state the transfer was in when the request was served — and "
+                                        f"changed nothing, yet it returned normally instead of raising "
+                                        f"InvalidStateTransition: the caller is led to believe the transfer is now "
+                                        f"{spec_target(d, m)}", case,
+                                        observed=f"returned normally, transfer is {e['cur']}",
+                                        required='InvalidStateTransition'))
+                else:
+                    vs.append(Violation('C03-not-refused',
+                                        f"{d}: {m}() (call {cid}) is not allowed in state {e['cur']}, changed nothing, yet "
+                                        f"reported success instead of False", case,
+                                        observed='returned normally', required='refused'))
         if e['kind'] == 'ret' and e['code'][0] in ('E', '?'):
             vs.append(Violation('C03-impl-error', f"call {e['who']} ({meth_of.get(e['who'])}) ended with {e['code']}", case))
     return vs
@@ -516,10 +585,32 @@ def _pair_cases() -> list[dict]:
         for s in STATES:
             for m1 in METHODS:
                 for m2 in METHODS:
-                    out.append({'kind': 'pair', 'dir': d, 'state': s, 'slow_cancel': 1, 'slow_fs': 1, 'slow_listener': 1,
-                                'k': 2, 'ly': 1, 'init': _init_for(s, d, None),
+                    out.append({'kind': 'pair', 'dir': d, 'state': s, 'slow_cancel': 1, 'slow_fs': 1,
+                                'ls': [[1, 1], [0, 0]], 'k': 2, 'init': _init_for(s, d, None),
                                 'steps': [[_call(0, m1)], [_call(1, m2)]] + [[['resume']]] * 6})
     return out
+
+
+def _pair_mgr_cases() -> list[dict]:
+    """EXHAUSTIVE: every (direction, state, op1, op2) where op2 is a request at the manager API
+    (`TransferManager.abort/queue/pause`) issued while op1 — any state method, or one of the three manager requests — is
+    inside its slow step: the refusal must surface as InvalidStateTransition whatever happened while op2 waited."""
+    out = []
+    firsts = [_call(0, m) for m in METHODS] + [['mcall', 0, m] for m in ('abort', 'queue', 'pause')]
+    for d in ('download', 'upload'):
+        for s in STATES:
+            for a in firsts:
+                for m2 in ('abort', 'queue', 'pause'):
+                    out.append({'kind': 'pair-mgr', 'dir': d, 'state': s, 'slow_cancel': 1, 'slow_fs': 1,
+                                'ls': [[0, 1], [1, 0]], 'k': 1, 'init': _init_for(s, d, None),
+                                'steps': [[list(a)], [['mcall', 1, m2]]] + [[['resume']]] * 6})
+    return out
+
+
+def _listener_mix(rng, gated_ok: bool) -> list:
+    """1–3 application listeners; some suspend for 0..3 loop iterations, some (when the schedule has `resume` steps to
+    let them go) on the gate."""
+    return [[int(gated_ok and rng.random() < 0.4), rng.choice([0, 0, 1, 2, 3])] for _ in range(rng.choice([1, 2, 2, 3]))]
 
 
 def _pair_burst_cases(rng) -> list[dict]:
@@ -531,7 +622,7 @@ def _pair_burst_cases(rng) -> list[dict]:
             for m1 in METHODS:
                 for m2 in METHODS:
                     out.append({'kind': 'pair-burst', 'dir': d, 'state': s, 'slow_cancel': 0, 'slow_fs': 0,
-                                'slow_listener': 0, 'k': rng.choice([0, 1, 3]), 'ly': rng.choice([0, 2]),
+                                'ls': _listener_mix(rng, False), 'k': rng.choice([0, 1, 3]),
                                 'init': _init_for(s, d, None), 'steps': [[_call(0, m1), _call(1, m2)], []]})
     return out
 
@@ -545,11 +636,13 @@ def _triple_cases(rng, n: int | None) -> list[dict]:
     out = []
     for d, s, a, b, c in space:
         gated = rng.random() < 0.8
+        ls = _listener_mix(rng, gated)
+        if gated and not any(g for g, _ in ls):
+            ls[0][0] = 1
         out.append({'kind': 'triple', 'dir': d, 'state': s, 'slow_cancel': int(gated), 'slow_fs': int(gated and rng.random() < 0.5),
-                    'slow_listener': int(gated), 'k': rng.choice([0, 1, 4]), 'ly': rng.choice([0, 1]),
-                    'init': _init_for(s, d, None),
+                    'ls': ls, 'k': rng.choice([0, 1, 4]), 'init': _init_for(s, d, None),
                     'steps': ([[_call(0, a)], [_call(1, b)], [_call(2, c)]] if gated else [[_call(0, a), _call(1, b), _call(2, c)]])
-                    + [[['resume']]] * (9 if gated else 1)})
+                    + [[['resume']]] * (3 * (2 + sum(g for g, _ in ls)) if gated else 1)})
     return out
 
 
@@ -557,8 +650,7 @@ def _random_case(rng: random.Random, size: int) -> dict:
     d = rng.choice(['download', 'upload'])
     s = rng.choice(STATES)
     case = {'kind': 'history', 'dir': d, 'state': s, 'slow_cancel': rng.randint(0, 1), 'slow_fs': rng.randint(0, 1),
-            'slow_listener': int(rng.random() < 0.4), 'k': rng.choice([0, 0, 1, 3]), 'ly': rng.choice([0, 0, 2]),
-            'init': _init_for(s, d, rng), 'steps': []}
+            'ls': _listener_mix(rng, True), 'k': rng.choice([0, 0, 1, 3]), 'init': _init_for(s, d, rng), 'steps': []}
     cid = 0
     pending_created = []
     weights = {'queue': 5, 'abort': 4, 'pause': 4, 'initialize': 3, 'start_transferring': 3, 'fail': 3, 'complete': 2,
@@ -603,8 +695,8 @@ def _random_case(rng: random.Random, size: int) -> dict:
 
 
 def _malformed_cases() -> list[dict]:
-    base = {'kind': 'malformed', 'dir': 'download', 'state': 'QUEUED', 'slow_cancel': 0, 'slow_fs': 0, 'slow_listener': 0,
-            'k': 0, 'ly': 0, 'init': _init_for('QUEUED', 'download', None)}
+    base = {'kind': 'malformed', 'dir': 'download', 'state': 'QUEUED', 'slow_cancel': 0, 'slow_fs': 0, 'ls': [[0, 0]],
+            'k': 0, 'init': _init_for('QUEUED', 'download', None)}
     return [
         dict(base, steps=[[['start', 7]], [_call(0, 'abort')]]),
         dict(base, steps=[[['call', 0, 'resume_transfer', None, 0]], [_call(1, 'pause')]]),
@@ -623,7 +715,8 @@ def _model_lines(case: dict, mode: str) -> list[str]:
     ini = case['init']
     o = lambda v: '-' if v is None else str(v)
     tl = int(ini.get('tasks', 'none') != 'none')
-    out = [f"cfg {case['dir']} {int(case['slow_cancel'])} {int(case['slow_fs'])} {int(case['slow_listener'])} {mode}",
+    ls = '0' + ''.join(str(g) for g, _ in _listeners(case))       # the manager's own listener never suspends
+    out = [f"cfg {case['dir']} {int(case['slow_cancel'])} {int(case['slow_fs'])} {ls} {mode}",
            f"init {case['state']} {o(ini.get('fr'))} {o(ini.get('ar'))} {int(bool(ini.get('rq')))} {o(ini.get('piq'))} "
            f"{ini.get('qa', 0)} {ini.get('ua', 0)} {o(ini.get('st'))} {o(ini.get('ct'))} "
            f"{int(ini.get('file') in ('path', 'file'))} {int(ini.get('file') == 'file')} {int(bool(ini.get('fs')))} "
@@ -683,13 +776,16 @@ class C03(Property):
     id = 'C03'
     props_module = 'AioslskVerif.Props.C03'
     driver_module = 'AioslskVerif.Driver.C03'
-    rule = ('schedules over one real Transfer: EXHAUSTIVE over (direction, state, op1, op2) with op2 issued while op1 is '
-            'suspended in its slow step(s) (gated task cancellation, file-system call, listener), the same 1280 pairs again '
-            'issued in one loop iteration with k-iteration cancellation, sampled (quick) / all (thorough) triples, and '
-            'random histories of up to 8 steps with up to 3 actions each (call / create+start / manager call / resume / '
-            'spawn / setfile) from random fields, all from VERIF_SEED; a case is non-trivial when some call arrived while '
-            'another held the lock (a waiter was observed or two calls were issued in one step) and at least one '
-            'listener event happened; distinct = distinct canonical case')
+    rule = ('schedules over one real Transfer held by a real TransferManager, with 2-4 state listeners (the manager\'s own '
+            'first, then 1-3 application listeners that suspend on a gate the schedule opens and/or for 0-3 loop '
+            'iterations), every listener\'s record observed: EXHAUSTIVE over (direction, state, op1, op2) with op2 issued '
+            'while op1 is suspended in its slow step(s) (gated task cancellation, file-system call, listener), EXHAUSTIVE '
+            'over (direction, state, op1 = any state method or manager request, op2 = TransferManager.abort/queue/pause) '
+            'likewise, the 1280 pairs again issued in one loop iteration with k-iteration cancellation, sampled (quick) / '
+            'all (thorough) triples, and random histories of up to 8 steps with up to 3 actions each (call / create+start / '
+            'manager call / resume / spawn / setfile) from random fields, all from VERIF_SEED; a case is non-trivial when '
+            'some call arrived while another held the lock (a waiter was observed or two calls were issued in one step) '
+            'and at least one listener event happened; distinct = distinct canonical case')
     assumptions = [
         'asyncio is cooperative and asyncio.Lock hands over FIFO (CPython 3.12); exercised, not modelled',
         'between two schedule steps the loop is run until nothing more can happen; overlap inside such a step '
@@ -700,9 +796,12 @@ class C03(Property):
     ]
     modelled = ('transfer/state.py: per-state methods (table regenerated by AST on every run: 31 overrides, effect lists, '
                 'targets per direction), _with_state_lock dispatch + lock hand-over, _remove_local_file, '
-                '_cancel_transfer_tasks/_stop_transfer; transfer/model.py: transition, set_/reset_ helpers, cancel_tasks; '
+                '_cancel_transfer_tasks/_stop_transfer; transfer/model.py: transition (state assignment, then the loop over '
+                'state_listeners in registration order, the new state read again for every listener, any listener may '
+                'suspend), set_/reset_ helpers, cancel_tasks; TransferManager.add (the manager is listener 0), '
                 'TransferManager.abort/queue/pause (refusal raises). Not modelled: OSError during file removal, real '
-                'peers (the cancelled tasks are stand-ins), the rest of the manager')
+                'peers (the cancelled tasks are stand-ins), the rest of the manager, listeners added or removed while '
+                'the transfer is in use')
 
     def regenerate(self):
         return [transfer_table.generate(common.REPO, common.LEAN)]
@@ -711,6 +810,7 @@ class C03(Property):
         rng = random.Random(f'C03-{seed}')
         cases = [WITNESS] + _corpus_cases() + _malformed_cases()
         cases += _pair_cases()
+        cases += _pair_mgr_cases()
         cases += _pair_burst_cases(rng)
         cases += _triple_cases(rng, None if tier == 'thorough' else 1500 * widen)
         n = (1500 if tier == 'quick' else 8000) * widen
@@ -741,6 +841,9 @@ class C03(Property):
             res.evaluations += 1
             res.count('kind:' + c['kind'])
             res.count('dir:' + c['dir'])
+            res.count(f'listeners:{1 + len(_listeners(c))}')
+            if any(g for g, _ in _listeners(c)):
+                res.count('cases-with-gated-listener')
             io = impl[i]
             il = io['lines']
             obs = [l for l in il if ' lock=' in l]
